@@ -25,7 +25,8 @@ class NodeWorld:
         self.trace = self.k.trace
         self.shims = Shims(self.k)
         self.shims.install()
-        self.sim = LedgerSim({'base': cfg.get('base', 'hreal'), 'hard': cfg.get('hard', False)}, prop, res, self.trace)
+        self.sim = LedgerSim({'base': cfg.get('base', 'hreal'), 'hard': cfg.get('hard', False), 'k': cfg.get('k', 0),
+                              'elapsed': cfg.get('elapsed', 1_209_600)}, prop, res, self.trace)
         self.sim.run(cfg.get('build', []))
         self.store_file = None
         path = ':memory:'
